@@ -1,11 +1,13 @@
 use vstd::prelude::*;
+macro_rules! filter { ($($t:tt)*) => { KvxFilter::PresSpn }; }
+macro_rules! modlist { ($($t:tt)*) => { KvxModlist::PurgeSpn }; }
 use vstd::std_specs::iter::IteratorSpec;
 use core::cmp::Ordering;
 verus! {
 //@include shims/uuid.rs
 // R3: `x.into()` (&str -> String; this Verus cannot attach a specification to <String as From<&str>>::from) redirected: keeps the characters
 #[verifier::external_body] pub fn kvx_string_of(s: &str) -> (r: String) ensures r@ == s@ { unimplemented!() }
-pub enum Attribute { Class, Name, Spn, Other(u64) }
+pub enum Attribute { Class, Name, Spn, Uuid, DomainName, Other(u64) }
 pub enum EntryClass { Group, Account, Other(u64) }
 pub enum SyntaxType { SecurityPrincipalName, Utf8StringIname, Other(u64) }
 impl vstd::std_specs::cmp::PartialEqSpecImpl for SyntaxType { open spec fn obeys_eq_spec() -> bool { true } open spec fn eq_spec(&self, o: &SyntaxType) -> bool { *self == *o } }
@@ -47,7 +49,8 @@ impl<V, S> Entry<V, S> {
     #[verifier::external_body] pub fn get_ava_set(&self, a: Attribute) -> (r: Option<&ValueSet>)
         ensures a is Spn ==> (r is Some == self.spn_attr() is Some) && (r is Some ==> *r->Some_0 == self.spn_attr()->Some_0) { unimplemented!() }
     #[verifier::external_body] pub fn attribute_equality(&self, a: Attribute, v: &PartialValue) -> (r: bool)
-        ensures (a is Class && v is Class) ==> r == self.has_class(v->Class_0) { unimplemented!() }
+        ensures (a is Class && v is Class) ==> r == self.has_class(v->Class_0),
+                (a is Uuid && *v == PVUUID_DOMAIN_INFO) ==> r == self.is_domain_info() { unimplemented!() }
     #[verifier::external_body] pub fn set_ava_set(&mut self, a: &Attribute, vs: ValueSet)
         ensures a is Spn ==> final(self).spn_attr() == Some(vs) && final(self).name() == old(self).name() && (forall|c: EntryClass| final(self).has_class(c) == old(self).has_class(c)) { unimplemented!() }
     #[verifier::external_body] pub fn get_uuid(&self) -> (r: Option<Uuid>) { unimplemented!() }
@@ -65,9 +68,44 @@ pub open spec fn is_principal<V, S>(e: &Entry<V, S>) -> bool { e.has_class(Entry
 pub open spec fn spn_is_name_at_domain<V, S>(e: &Entry<V, S>, domain: Seq<char>) -> bool {
     e.name() matches Some(n) && e.spn_attr() matches Some(vs) && vs.syn() == SyntaxType::SecurityPrincipalName && vs.spns() == set![(n, domain)]
 }
+// ---- domain rename: post_modify_inner purges EVERY spn so that modify_inner (above) regenerates it with the new domain name ----
+pub struct Arc<T> { pub v: T }
+impl<T> core::ops::Deref for Arc<T> { type Target = T; fn deref(&self) -> (r: &T) ensures *r == self.v { &self.v } }
+pub struct EntrySealed; pub struct EntryCommitted;
+pub struct Value { pub o: u64 }
+impl<V, S> Entry<V, S> {
+    pub uninterp spec fn is_domain_info(&self) -> bool;           // uuid == UUID_DOMAIN_INFO
+    pub uninterp spec fn domain_name_val(&self) -> Option<Value>;  // the single value of `domain_name`
+    #[verifier::external_body] pub fn get_ava_single(&self, a: Attribute) -> (r: Option<Value>) ensures a is DomainName ==> r == self.domain_name_val() { unimplemented!() }
+}
+pub const PVUUID_DOMAIN_INFO: PartialValue = PartialValue::Other(1);
+impl vstd::std_specs::cmp::PartialEqSpecImpl for Value { open spec fn obeys_eq_spec() -> bool { true } open spec fn eq_spec(&self, o: &Value) -> bool { *self == *o } }
+impl PartialEq for Value { fn eq(&self, o: &Value) -> (r: bool) { self.o == o.o } }
+// filter! / modlist! build the search filter and the modification list: here they are opaque values tagged with what they denote
+pub enum KvxFilter { PresSpn, Other }
+pub enum KvxModlist { PurgeSpn, Other }
+// R3: `cand.iter().zip(pre_cand.iter()).find_map(f)` (zip / find_map are provided trait methods) redirected to a stand-in specified through
+// the closure's own contract: Some(v) only if the closure returned Some(v) for some aligned pair; None only if it returned None for all
+#[verifier::external_body]
+pub fn kvx_zip_find_map<'a, A, B, R, F: Fn((&'a A, &'a B)) -> Option<R>>(a: &'a [A], b: &'a [B], f: F) -> (r: Option<R>)
+    requires forall|i: int| 0 <= i < a@.len() && i < b@.len() ==> f.requires(((&#[trigger] a@[i], &b@[i]),)),
+    ensures r matches Some(v) ==> exists|i: int| 0 <= i < a@.len() && i < b@.len() && f.ensures(((&#[trigger] a@[i], &b@[i]),), Some(v)),
+            r is None ==> forall|i: int| 0 <= i < a@.len() && i < b@.len() ==> f.ensures(((&#[trigger] a@[i], &b@[i]),), None),
+{ unimplemented!() }
+impl QueryServerWriteTransaction {
+    pub uninterp spec fn all_spn_purged(&self) -> bool;            // an internal_modify(spn present -> purge spn) has been issued in this transaction
+    #[verifier::external_body] pub fn reload_domain_info(&mut self) -> (r: Result<(), OperationError>) ensures final(self).all_spn_purged() == old(self).all_spn_purged() { unimplemented!() }
+    #[verifier::external_body] pub fn internal_modify(&mut self, f: &KvxFilter, m: &KvxModlist) -> (r: Result<(), OperationError>)
+        ensures (r is Ok && *f is PresSpn && *m is PurgeSpn) ==> final(self).all_spn_purged(), !(*f is PresSpn && *m is PurgeSpn) ==> final(self).all_spn_purged() == old(self).all_spn_purged() { unimplemented!() }
+}
+// "the domain name changed in this operation": some modified entry is the domain-info entry and its domain_name differs from before
+pub open spec fn domain_renamed(pre: &[Arc<Entry<EntrySealed, EntryCommitted>>], post: &[Entry<EntrySealed, EntryCommitted>]) -> bool {
+    exists|i: int| 0 <= i < post@.len() && i < pre@.len() && (#[trigger] post@[i]).is_domain_info() && post@[i].domain_name_val() is Some && post@[i].domain_name_val() != pre@[i].v.domain_name_val()
+}
 pub struct Spn {}
 impl Spn {
 //@extract modify_inner
+//@extract post_modify_inner
 }
 }
 fn main(){}
